@@ -4,7 +4,7 @@
    proofs: Proofs/StreamPoolProofs.v, Proofs/StreamPoolIndex.v. *)
 From Coq Require Import List NArith Bool.
 Import ListNotations.
-From AnySync Require Import Model.StreamPool Proofs.StreamPoolProofs Proofs.StreamPoolIndex Proofs.StreamPoolSpec.
+From AnySync Require Import Model.StreamPool Proofs.StreamPoolProofs Proofs.StreamPoolIndex Proofs.StreamPoolSpec Proofs.StreamPoolHist.
 Open Scope N_scope.
 
 (* ---- bounded queues -------------------------------------------------------------------------------- *)
@@ -118,14 +118,50 @@ Print Assumptions c19_cleanup.
 (* FULL statement (not proved in Coq; checked by vm_compute on every generated case, where the model's history
    is required to be EQUAL to the observed one and the observed one to satisfy spec_C19):
      forall c ops, spec_C19 ops (model_hist c ops) = true.
-   Proved part: the per-observation clauses "the call returned (no fatal / panic / hang in the model)" and
-   "no snapshot shows more than the configured size buffered".  Missing: the clauses that relate several
-   observations (FIFO over the MsgSend log, Close()/removal once, nothing mentions a removed stream) and the
-   canonicalised-snapshot form of index consistency; their state-level counterparts are c19_fifo,
-   c19_index_consistent and c19_cleanup above. *)
+   Proved parts:
+   * c19_model_satisfies_spec_partial — the per-observation clauses "the call returned (no fatal / panic / hang in
+     the model)" and "no snapshot shows more than the configured size buffered";
+   * c19_model_satisfies_spec_once (Proofs/StreamPoolHist.v) — the history clauses "Close() of a stream is seen at
+     most once" and "the removal of a stream is seen at most once", over the running observer state of spec_from
+     (c19_spec_implies_once: they are conjuncts of spec_C19); rests on c19_flags_irreversible: in every schedule a
+     stream object never disappears from the heap and its queue.Close / removeStream flags never go back.
+   Still missing (state-level counterparts: c19_fifo, c19_index_consistent, c19_cleanup):
+   * FIFO over the MsgSend log (needs an invariant over the callers' pending programs: every message still to be
+     written is not older than what any target stream has accepted, and no program survives the operation that
+     started it in an [expand]ed history);
+   * "nothing mentions a removed stream" and the canonicalised-snapshot form of index consistency (both need one more
+     invariant: the keys of streamIdsByPeer / streamIdsByTag are distinct — true because [mset] deletes before it
+     conses, not yet proved through the labels — because [canon_imap] / [snap_mentions] look at every entry of the
+     association list while [idx_inv] speaks through [mget]). *)
 Theorem c19_model_satisfies_spec_partial : forall c ops, forallb obs_static_ok (model_hist c ops) = true.
 Proof. exact model_hist_static_ok. Qed.
 Print Assumptions c19_model_satisfies_spec_partial.
+
+(* in every schedule: a stream object stays in the heap, and once its queue is closed / it is removed from the pool
+   it stays so (queue.Close and pool.removeStream are irreversible per stream) *)
+Theorem c19_flags_irreversible : forall c tr tr' sid x,
+  hget sid (objs (run (init c) tr)) = Some x ->
+  exists y, hget sid (objs (run (run (init c) tr) tr')) = Some y /\
+            (st_qclosed x = true -> st_qclosed y = true) /\ (st_removed x = true -> st_removed y = true).
+Proof. exact flags_irreversible. Qed.
+Print Assumptions c19_flags_irreversible.
+
+(* over every harness-level history of the model, the observer of spec_C19 sees the Close() of a stream at most once
+   and its removal (close-hook notification) at most once *)
+Theorem c19_model_satisfies_spec_once : forall c ops, spec_once_from (mkOst [] [] []) 0 (model_hist c ops) = true.
+Proof. exact model_hist_once_ok. Qed.
+Print Assumptions c19_model_satisfies_spec_once.
+
+Theorem c19_spec_implies_once : forall ops observed,
+  spec_C19 ops observed = true -> spec_once_from (mkOst [] [] []) 0 observed = true.
+Proof. exact spec_implies_once. Qed.
+
+(* the two clauses are exercised: a stream whose MsgRecv fails is closed and removed, seen once, never again *)
+Example c19_once_nonvacuous :
+  map (fun o => (o_closed o, o_removed o))
+      (model_hist (mkConfig 1 4) [HAddStream 1 2 [7] false; HReadErr 1; HStreams [7]; HReadErr 1]) =
+  [([], []); ([1], [(1, [7])]); ([], []); ([], [])].
+Proof. vm_compute. reflexivity. Qed.
 
 Theorem c19_spec_implies_static : forall ops observed,
   spec_C19 ops observed = true -> forallb obs_static_ok observed = true.
